@@ -801,6 +801,7 @@ def _k1p_parts(tier):
         add("opcode", 2, 2, {"installed": 6, "new": 6, "legacy": 6})
         add("line", 3, 1, {"installed": 2, "new": 2, "legacy": 2})
         add("opcode", 3, 1, {"installed": 3, "new": 3, "legacy": 3})
+        add("line", 3, 2, {"installed": 16}, nfails=(0,))
     return parts
 
 
@@ -1714,7 +1715,8 @@ KERNELS = [
            k1p_preemptive, targets=_t_k1, parts=_k1p_parts, strength="structure", max_depth=6000,
            bounds={"quick": {"threads": "2 (3: line, >=6.6 layout, no failing body)",
                              "preemptions": "2 (line, k=2, >=6.6 layout) / 1 (otherwise)"},
-                   "thorough": {"threads": "2 / 3", "preemptions": "2 (k=2, line and opcode) / 1 (k=3, line and opcode)"}},
+                   "thorough": {"threads": "2 / 3", "preemptions": "2 (k=2, line and opcode; k=3, line, installed pypdf, no failing body) / "
+                                               "1 (k=3, line and opcode)"}},
            perturb=[("expect_enter_and_exit_atomic", {"api": "new", "gran": "line", "k": 2, "bound": 1, "nfail": 0}),
                     ("lock_excludes_nothing", {"api": "new", "gran": "line", "k": 2, "bound": 1, "nfail": 0}),
                     ("lock_excludes_nothing", {"api": "installed", "gran": "opcode", "k": 2, "bound": 1, "nfail": 1})],
